@@ -185,7 +185,7 @@ func genCase(t *rapid.T) Case {
 		return m
 	}
 	mainName := "index." + mainExt
-	switch rapid.IntRange(0, 6).Draw(t, "relation") {
+	switch rapid.IntRange(0, 8).Draw(t, "relation") {
 	case 6:
 		// the same path string from two directories names two files, and one file has several
 		// spellings: every spelling must render what the rooted spelling renders
@@ -217,6 +217,50 @@ func genCase(t *rapid.T) Case {
 			"index." + ext: "{{ render \"/a/x." + ext + "\" }}{{ render \"/b/y." + ext + "\" }}{{ render \"/a/p." + ext + "\" }}",
 		}
 		return Case{Relation: "render-spellings", V: v, Note: ext, A: a, AName: "index." + ext, B: b, BName: "index." + ext}
+	case 7:
+		// import … for: two files export the same names; each name comes from the file whose
+		// for clause lists it ≡ the listed declarations written in the importing file
+		ext := rapid.SampledFrom([]string{"html", "txt", "md", "js"}).Draw(t, "fext")
+		na, nb := body(t, ext, nil, 0)+"nA", body(t, ext, nil, 0)+"nB"
+		ma, mb := body(t, ext, nil, 0)+"mA", body(t, ext, nil, 0)+"mB"
+		nfile := "{% macro A %}" + na + "{% end %}{% macro B %}" + nb + "{% end %}{% var V = \"nV\" %}"
+		mfile := "{% macro A %}" + ma + "{% end %}{% macro B %}" + mb + "{% end %}{% var V = \"mV\" %}"
+		takeV := rapid.SampledFrom([]string{"n", "m"}).Draw(t, "takev")
+		forN, forM, v := "B", "A", "nV"
+		if takeV == "n" {
+			forN += ", V"
+		} else {
+			forM += ", V"
+			v = "mV"
+		}
+		imports := "{% import \"n." + ext + "\" for " + forN + " %}{% import \"m." + ext + "\" for " + forM + " %}"
+		if rapid.Bool().Draw(t, "importorder") {
+			imports = "{% import \"m." + ext + "\" for " + forM + " %}{% import \"n." + ext + "\" for " + forN + " %}"
+		}
+		use := "x{{ A() }}|{{ B() }}|{{ V }}"
+		return Case{Relation: "import-for", V: []string{"a", "b"}, Note: ext,
+			A: map[string]string{"index." + ext: imports + use, "n." + ext: nfile, "m." + ext: mfile}, AName: "index." + ext,
+			B: map[string]string{"index." + ext: "{% macro A %}" + ma + "{% end %}{% macro B %}" + nb + "{% end %}{% var V = \"" + v + "\" %}" + use}, BName: "index." + ext}
+	case 8:
+		// the same import path written in files of different directories names different files,
+		// each with its own variables and macros ≡ the declarations written where they are used
+		ext := rapid.SampledFrom([]string{"html", "txt"}).Draw(t, "rext")
+		conf := func(name string) string {
+			return "{% var Name = \"" + name + "\" %}{% var Size = len(Name) * 10 %}{% macro Title %}[{{ Name }}]{% end %}"
+		}
+		page := "{{ Name }}{{ Size }}{{ Title() }}"
+		spell := rapid.SampledFrom([]string{"conf." + ext, "conf." + ext, "/sub/conf." + ext}).Draw(t, "subspell")
+		rootFirst := rapid.Bool().Draw(t, "rootfirst")
+		idxA := "{% import \"conf." + ext + "\" %}" + page + ":{{ render \"sub/page." + ext + "\" }}"
+		idxB := conf("root") + page + ":{{ render \"sub/page." + ext + "\" }}"
+		if !rootFirst {
+			// (an import statement comes before anything else in its file)
+			idxA = "{% import \"conf." + ext + "\" %}{{ render \"sub/page." + ext + "\" }}:" + page
+			idxB = conf("root") + "{{ render \"sub/page." + ext + "\" }}:" + page
+		}
+		return Case{Relation: "import-relative", V: []string{"a", "b"}, Note: ext,
+			A: map[string]string{"index." + ext: idxA, "conf." + ext: conf("root"), "sub/conf." + ext: conf("subdir"), "sub/page." + ext: "{% import \"" + spell + "\" %}" + page}, AName: "index." + ext,
+			B: map[string]string{"index." + ext: idxB, "sub/page." + ext: conf("subdir") + page}, BName: "index." + ext}
 	case 5:
 		// a macro imported from a file of any format: showing the call ≡ assigning the call to a variable and showing it
 		ext := rapid.SampledFrom([]string{"html", "html", "txt", "md", "js", "css"}).Draw(t, "cext")
